@@ -545,9 +545,14 @@ fn eval_in(case: &CliCase, stats: &mut Counters, bin: &Path, dir: &Path) -> Opti
             let h = SparseMatrix::from_alist(alist).ok()?;
             let m = BitMat::from_sparse(&h);
             let what = format!("systematic on a {}x{} matrix of rank {}", m.r, m.c, m.rank());
-            if m.r > m.c || m.r == 0 {
-                stats.inc("skipped/systematic input with more rows than columns or no rows");
+            if m.r == 0 {
+                stats.inc("skipped/systematic input with no rows");
                 return None;
+            }
+            if m.r > m.c {
+                // more checks than bits: no systematic form exists; an error, not a panic
+                stats.inc("overdetermined input rejected");
+                return expect_error_exit(&out, &what);
             }
             if m.rank() < m.r {
                 stats.inc("rank-deficient input rejected");
@@ -743,7 +748,7 @@ fn eval_in(case: &CliCase, stats: &mut Counters, bin: &Path, dir: &Path) -> Opti
             // is the file still acceptable to the parser? then this is not a fault case
             if let Some(b) = &bytes {
                 if let Ok(t) = String::from_utf8(b.clone()) {
-                    if SparseMatrix::from_alist(&t).is_ok() {
+                    if parse_untrusted(&t).is_ok() {
                         stats.inc("skipped/damaged file still parses");
                         return None;
                     }
@@ -1199,7 +1204,26 @@ fn gen_sampled(seed: u64, i: u64) -> CliCase {
                 _ => r + g.below(7) as usize,
             };
             let mut m = BitMat::zeros(r, c);
-            match g.below(4) {
+            let shape = g.below(6);
+            if shape == 4 {
+                // already in the shape the DVB-S2 matrices have (dual-diagonal last columns): the
+                // library still takes its pivots from the left, and the tool must print that
+                // (seeded change C20-r5-3 prints such inputs unchanged)
+                let kk = 1 + g.below(6) as usize;
+                return CliCase::Systematic { alist: random_code(&mut g, kk, r, Tail::Staircase, 1).to_alist() };
+            }
+            if shape == 5 {
+                // more rows than columns
+                let mut t = BitMat::zeros(c + 1 + g.below(3) as usize, c.max(1));
+                for i in 0..t.r {
+                    for j in 0..t.c {
+                        t.a[i][j] = g.below(2) as u8;
+                    }
+                }
+                t.a[0][0] = 1;
+                return CliCase::Systematic { alist: t.to_alist() };
+            }
+            match shape {
                 0 => {
                     // late pivots: free (zero or duplicate) columns first, an invertible block last
                     let inv = random_invertible(&mut g, r);
